@@ -352,6 +352,17 @@ class Gen:
                     f.append((self.r.choice([11, 12, 20, 100, 255]), ty, wiregen.gen_val(self.r, ty, 1)))
             if self.r.random() < 0.3:
                 f.append((10, ('b', 'o'), self.r.choice(PATHS)))
+            if self.r.random() < 0.1:
+                # a header field the specification defines, given twice (not a valid message: the second would survive a bus that
+                # only rewrites the first)
+                code = self.r.choice([7, 7, 7, 10, 6, 2])
+                if code == 7:
+                    f.append((7, ('b', 's'), self.r.choice([b"org.freedesktop.DBus", b":1.1", b":1.2"])))
+                    f.append((7, ('b', 's'), self.r.choice([b"org.freedesktop.DBus", b":1.1", b":1.3"])))
+                elif code == 10:
+                    f.append((10, ('b', 'o'), b"/c1")); f.append((10, ('b', 'o'), b"/c2"))
+                else:
+                    f += [x for x in f if x[0] == code][:1]
             sig, vals = self.body()
             m.body_types = wiregen.parse_sig_all(sig); m.body = vals
             if sig: f.append((8, ('b', 'g'), sig.encode()))
